@@ -1,54 +1,42 @@
 (* C05/Props.v -- the proof obligations of property C05 (no bytes from the network can crash the
    application), and nothing else.
 
-   The models (C04/Model.v: parseFrame and everything below it, Iter.Scan, RowData; C05/Model.v:
-   Unmarshal into the canonical destination, getCassandraType, parseType) return Crash c exactly where the
-   Go code panics in the caller's or a driver goroutine, c naming the site.  The full statement "never
-   Crash" is FALSE for the code as it is (C05/Refuted.v has one machine-checked witness per site, each
-   reproduced on the real code and registered as a known finding).  What is proved, for ALL byte strings:
-   every crash is at one of the named sites, the sites each decoder can reach, the exact inputs on
-   which the two frame-parser sites fire, and full safety where it holds (every primitive reader,
-   every frame kind that reads neither an inet nor a partition-key count, readTypeInfo, getCassandraType). *)
+   The models (C04/Model.v: parseFrame and everything below it, Iter.Scan, the Scanner API, RowData;
+   C05/Model.v: Unmarshal into the canonical destination, getCassandraType, parseType) return Crash c exactly
+   where the Go code would panic in the caller's or a driver goroutine.  The defects the first version of
+   this file had to exclude (14 known findings: short inet, partition-key count, rows shorter than declared,
+   empty tuple column, Scanner cell index, tuple/UDT field length, list length, short date, map key types,
+   three in the typeParser, two allocation sites) have been repaired in /repo; the models follow the repaired
+   code and every statement below is now unconditional: for ALL byte strings, no Crash. *)
 From Coq Require Import String.
 From GocqlV Require Import Lib.Base Gen.Consts C04.Model C04.Proofs1 C04.Proofs4
-  C05.Model C05.Proofs1 C05.Proofs2 C05.Proofs3 C05.Proofs4 C05.Proofs5.
+  C05.Model C05.Proofs1 C05.Proofs2 C05.Proofs3 C05.Proofs4 C05.Proofs5 C05.Proofs6.
 
 (* never_crashes p (C05/Model.v): forall b c, wf_bytes b -> out p b <> Crash c *)
-(* Every primitive reader of frame.go:1771-1937 but one returns a value or a (recovered) error on
-   every byte string. *)
+
+(* Every primitive reader of frame.go:1771-1937 returns a value or a (recovered) error on every byte string. *)
 Theorem C05_primitives_safe :
   never_crashes read_byte /\ never_crashes read_short /\ never_crashes read_int /\ never_crashes read_string
   /\ never_crashes read_bytes /\ never_crashes read_short_bytes /\ never_crashes read_uuid
-  /\ never_crashes read_string_list /\ never_crashes read_bytes_map /\ never_crashes read_string_multimap.
+  /\ never_crashes read_string_list /\ never_crashes read_bytes_map /\ never_crashes read_string_multimap
+  /\ never_crashes read_inet_addr /\ never_crashes read_inet.
 Proof.
   repeat split; eapply good_nil_never;
     first [ apply good_read_byte | apply good_read_short | apply good_read_int | apply good_read_string | apply good_read_bytes
           | apply good_read_short_bytes | apply good_read_uuid | apply good_read_string_list | apply good_read_bytes_map
-          | apply good_read_string_multimap ].
+          | apply good_read_string_multimap | apply good_read_inet_addr | apply good_read_inet ].
 Qed.
 Print Assumptions C05_primitives_safe.
 
-(* The exception: readInetAdressOnly checks "at least one byte" instead of "at least size bytes".  It
-   panics exactly when the size byte is 4 or 16 and between 1 and size-1 bytes follow. *)
-Theorem C05_inet_crash_iff : forall b c,
-  out read_inet_addr b = Crash c <->
-  c = CInetSlice /\ exists sz rest, b = sz :: rest /\ (sz = 4 \/ sz = 16) /\ 1 <= blen rest < sz.
-Proof. exact read_inet_addr_crash_iff. Qed.
-Print Assumptions C05_inet_crash_iff.
-
-(* parseFrame, for every framer version, header and body: a panic can only be the short inet (EVENT
-   frames, and ERROR frames with a protocol-5 framer, whose reason map holds inet addresses) or the
-   negative partition-key count (RESULT frames with a protocol 4/5 framer); readTypeInfo, both metadata
-   readers and every other body reader never panic; on success the unconsumed part is a suffix of the
-   body (nothing outside the received bytes is returned as remainder) and the column types of a rows
-   frame have the shape goType / Unmarshal expect. *)
-Theorem C05_parse_frame_crash_sites : forall proto hver hflags hop body, wf_bytes body ->
+(* parseFrame, for every framer version, every header (any opcode, any flags, either direction) and every body:
+   a frame or an error, never a panic; the error is never the model's own fuel error; on success the unconsumed
+   part is a suffix of the body (nothing outside the received bytes is returned as remainder) and the column
+   types of a rows frame have the shape goType / Unmarshal expect. *)
+Theorem C05_parse_frame_safe : forall proto hver hflags hop body, wf_bytes body ->
   match out (parse_frame proto hver hflags hop) body with
   | Ok (p, rest) => (exists k, rest = skipn k body) /\ frame_ok (p_frame p)
   | Err e => e <> EFuel
-  | Crash c =>
-      (c = CInetSlice /\ (hop = K.opEvent \/ (hop = K.opError /\ proto > K.protoVersion4)))
-      \/ (c = CPkeyMake /\ hop = K.opResult /\ proto >= K.protoVersion4)
+  | Crash _ => False
   end.
 Proof.
   intros proto hver hflags hop body Hb.
@@ -57,37 +45,20 @@ Proof.
   destruct (out (parse_frame proto hver hflags hop) body) as [[p rest]|e|c].
   - destruct G as [G1 G2]. split; [exact G2 | exact G1].
   - intros ->. apply F. reflexivity.
-  - unfold frame_sites in G. apply in_app_or in G. destruct G as [G|G].
-    + destruct ((hop =? K.opEvent) || ((hop =? K.opError) && (proto >? K.protoVersion4))) eqn:E; [|contradiction].
-      destruct G as [<-|[]]. left. split; [reflexivity|].
-      apply orb_true_iff in E. destruct E as [E|E]; [left; apply Z.eqb_eq, E|].
-      apply andb_true_iff in E. destruct E as [E1 E2]. right. split; [apply Z.eqb_eq, E1 | apply Z.gtb_lt in E2; lia].
-    + destruct ((hop =? K.opResult) && (proto >=? K.protoVersion4)) eqn:E; [|contradiction].
-      destruct G as [<-|[]]. right. split; [reflexivity|].
-      apply andb_true_iff in E. destruct E as [E1 E2]. split; [apply Z.eqb_eq, E1 | apply Z.geb_le in E2; lia].
-Qed.
-Print Assumptions C05_parse_frame_crash_sites.
-
-(* Hence: READY, AUTHENTICATE, AUTH_CHALLENGE, AUTH_SUCCESS, SUPPORTED, every unknown opcode, every
-   request-direction frame, ERROR below protocol 5 and RESULT below protocol 4 can not make parseFrame panic. *)
-Theorem C05_parse_frame_safe : forall proto hver hflags hop body c, wf_bytes body ->
-  hop <> K.opEvent -> (hop = K.opError -> proto <= K.protoVersion4) -> (hop = K.opResult -> proto < K.protoVersion4) ->
-  out (parse_frame proto hver hflags hop) body <> Crash c.
-Proof.
-  intros proto hver hflags hop body c Hb H1 H2 H3 Hc.
-  pose proof (C05_parse_frame_crash_sites proto hver hflags hop body Hb) as G. rewrite Hc in G.
-  destruct G as [(_ & [G | (G & G')]) | (_ & G & G')]; [contradiction | specialize (H2 G); lia | specialize (H3 G); lia].
+  - exact G.
 Qed.
 Print Assumptions C05_parse_frame_safe.
 
-(* The partition-key site fires exactly on: flags, a non-negative column count, a negative pk count. *)
-Theorem C05_pk_count_crash : forall proto b c, wf_bytes b ->
-  out (parse_prepared_metadata proto) b = Crash c ->
-  c = CPkeyMake /\ proto >= K.protoVersion4
-  /\ exists f b1 cc b2 pk b3, out read_int b = Ok (f, b1) /\ out read_int b1 = Ok (cc, b2) /\ 0 <= cc
-                              /\ out read_int b2 = Ok (pk, b3) /\ pk < 0.
-Proof. exact parse_prepared_metadata_crash. Qed.
-Print Assumptions C05_pk_count_crash.
+(* Allocation in proportion to the bytes received: whatever the body and whatever the outcome (frame, error),
+   the bytes parseFrame asks the allocator for -- every make, copy and string conversion of the modelled code, with
+   nominal 64-bit element sizes and five times the final size for slices grown by append -- are at most 84 per
+   byte of the body plus 4 MiB (the largest nest of allocations sized by a 16-bit count before the elements are
+   read: a string multimap of string lists).  Before the fixes of alloc-nested-tuple-types and
+   alloc-prepared-pk-count this was false (200 MB for 821 bytes; 16 GiB for 19 bytes). *)
+Theorem C05_alloc_linear : forall proto hver hflags hop body, wf_bytes body ->
+  cost (parse_frame proto hver hflags hop) body <= 84 * blen body + 64 * 65535.
+Proof. exact parse_frame_alloc_linear. Qed.
+Print Assumptions C05_alloc_linear.
 
 (* readTypeInfo: arbitrarily nested, arbitrarily malformed type descriptors never panic; the model's
    recursion fuel (buffer length + 1) is never exhausted; the descriptors it builds have the shape
@@ -104,58 +75,39 @@ Proof.
 Qed.
 Print Assumptions C05_read_type_safe.
 
-(* Iter.Scan (any metadata, any destination count, any body): a panic is one of
-   - readColumn with fewer than four bytes left (the body is shorter than the declared rows),
-   - an empty destination list (trailing zero-arity tuple columns),
-   - a tuple component length larger than the rest of the cell (marshal.go readBytes);
-   and a sequence of k calls keeps that property. *)
-Theorem C05_scan_crash_sites : forall k m nrows ndest it, wf_bytes (it_buf it) ->
-  Forall (fun o => match o with SPanic c => In c [CScanPanic; CScanDest; CTupleField] | _ => True end)
-         (iter_scans k m nrows ndest it).
-Proof. exact iter_scans_sites. Qed.
-Print Assumptions C05_scan_crash_sites.
+(* Iter.Scan -- any metadata, any number of destinations, any body, any number of calls: true with cells,
+   or false (with Iter.err set when the body ends early, a tuple component is longer than its cell, or the
+   destinations do not fit), never a panic. *)
+Theorem C05_scan_safe : forall k m nrows ndest it, wf_bytes (it_buf it) ->
+  Forall (fun o => match o with SPanic _ => False | _ => True end) (iter_scans k m nrows ndest it).
+Proof. exact iter_scans_safe. Qed.
+Print Assumptions C05_scan_safe.
 
-(* The Scanner API (Next, then Scan): the same three sites, and the index of a row's cell by destination
-   position in iterScanner.Scan (a tuple column that is not the last one). *)
-Theorem C05_scanner_crash_sites : forall k m nrows ndest it, wf_bytes (it_buf it) ->
-  Forall (fun o => match o with SPanic c => In c [CScanPanic; CScanDest; CTupleField; CScannerIdx] | _ => True end)
-         (scanner_steps k m nrows ndest it).
-Proof. exact scanner_steps_sites. Qed.
-Print Assumptions C05_scanner_crash_sites.
+(* The Scanner API (Next, then Scan): likewise. *)
+Theorem C05_scanner_safe : forall k m nrows ndest it, wf_bytes (it_buf it) ->
+  Forall (fun o => match o with SPanic _ => False | _ => True end) (scanner_steps k m nrows ndest it).
+Proof. exact scanner_steps_safe. Qed.
+Print Assumptions C05_scanner_safe.
 
-(* Without tuple columns and with one destination per column, the only panic left is the short body. *)
-Theorem C05_scan_no_tuple : forall cols avail b, Forall no_tuple cols -> Z.of_nat (length cols) <= avail -> wf_bytes b ->
-  match out (scan_cols cols avail) b with Crash c => c = CScanPanic | _ => True end.
-Proof.
-  intros cols avail b Hc Ha Hb. pose proof (good_scan_cols_no_tuple cols Hc avail Ha b Hb) as G.
-  destruct (out (scan_cols cols avail) b) as [[x r]|e|c]; try exact I. destruct G as [G|[]]. symmetry. exact G.
-Qed.
-Print Assumptions C05_scan_no_tuple.
-
-(* Iter.RowData (MapScan, SliceMap) on the columns of any parsed rows frame: the only panic is
-   reflect.MapOf on a map type whose key type is not comparable in Go. *)
-Theorem C05_rowdata_crash_site : forall proto hver hflags hop body p rest m n c, wf_bytes body ->
+(* Iter.RowData (MapScan, SliceMap) on the columns of any parsed rows frame never panics (a map column whose key
+   type Go cannot use as a map key is an error). *)
+Theorem C05_rowdata_safe : forall proto hver hflags hop body p rest m n c, wf_bytes body ->
   out (parse_frame proto hver hflags hop) body = Ok (p, rest) -> p_frame p = FRows m n ->
-  row_data (m_cols m) = Crash c -> c = CMapKey.
+  row_data (m_cols m) <> Crash c.
 Proof.
-  intros proto hver hflags hop body p rest m n c Hb Hp Hf Hr.
-  pose proof (C05_parse_frame_crash_sites proto hver hflags hop body Hb) as G. rewrite Hp in G. destruct G as [_ G].
-  rewrite Hf in G. eapply row_data_sites; eassumption.
+  intros proto hver hflags hop body p rest m n c Hb Hp Hf.
+  pose proof (C05_parse_frame_safe proto hver hflags hop body Hb) as G. rewrite Hp in G. destruct G as [_ G].
+  rewrite Hf in G. apply row_data_safe. exact G.
 Qed.
-Print Assumptions C05_rowdata_crash_site.
+Print Assumptions C05_rowdata_safe.
 
-(* Unmarshal of any bytes into the destination NewWithError creates, for every type readTypeInfo can
-   build: the only panics are the negative list length, the tuple / UDT field longer than the value,
-   the date of 1-3 bytes, and reflect.MapOf as above. *)
-Theorem C05_unmarshal_crash_sites : forall proto t data c, tinfo_ok t ->
-  unmarshal_new proto t data = Crash c -> In c [CListNeg; CTupleField; CDateShort; CMapKey].
-Proof. exact unmarshal_new_sites. Qed.
-Print Assumptions C05_unmarshal_crash_sites.
-
-(* ... and the model's loop fuel (length of the value + 1) is never exhausted, for any type and bytes. *)
-Theorem C05_unmarshal_fuel_adequate : forall proto t data, unmarshal proto t data <> Err EFuel.
-Proof. exact unmarshal_no_fuel. Qed.
-Print Assumptions C05_unmarshal_fuel_adequate.
+(* Unmarshal of any bytes into the destination NewWithError creates, for every type readTypeInfo can build
+   (tinfo_ok, see C05_read_type_safe) and any protocol version: never a panic, and the model's loop fuel is
+   never exhausted. *)
+Theorem C05_unmarshal_safe : forall proto t data c, tinfo_ok t ->
+  unmarshal_new proto t data <> Crash c /\ unmarshal proto t data <> Err EFuel.
+Proof. intros proto t data c Hok. split; [apply unmarshal_new_no_crash, Hok | apply unmarshal_no_fuel]. Qed.
+Print Assumptions C05_unmarshal_safe.
 
 (* getCassandraType (schema type names, v3+ schema tables): total on every byte string -- it returns a type,
    never panics, and the model's fuel is never exhausted. *)
@@ -163,27 +115,30 @@ Theorem C05_get_cassandra_type_total : forall name, exists t, get_cassandra_type
 Proof. exact get_cassandra_type_top_total. Qed.
 Print Assumptions C05_get_cassandra_type_total.
 
-(* parseType (validator / comparator class strings): a panic is an index past the end of the input
-   in parseParamNodes, a missing parameter of a Composite/List/Set/Map/Reversed class, or an unnamed
-   collection parameter. *)
-Theorem C05_typestring_crash_sites : forall def c,
-  parse_type def = Crash c -> In c [CTypeIdx; CTypeParams; CTypeNilName].
-Proof. exact parse_type_sites. Qed.
-Print Assumptions C05_typestring_crash_sites.
+(* parseType (validator / comparator class strings of the v1/v2 schema tables): never a panic, whatever the string. *)
+Theorem C05_typestring_safe : forall def c, parse_type def <> Crash c.
+Proof. exact parse_type_no_crash. Qed.
+Print Assumptions C05_typestring_safe.
 
 (* ---- non-vacuity ------------------------------------------------------------------------------------ *)
-(* the hypotheses are satisfiable and the conclusions have all three outcomes: a body that parses, one
-   that is rejected with an error, one that crashes at a named site *)
+(* the hypotheses are satisfiable and the conclusions have both remaining outcomes: a body that parses, and the
+   formerly crashing inputs, which are now rejected with errors *)
 Example C05_nonvacuous :
   wf_bytes [0;0;0;2; 0;0;0;1; 0;0;0;1; 0;1;107; 0;1;116; 0;1;99; 0;33; 0;13; 0;9; 0;0;0;0]
   /\ (exists p, out (parse_frame 4 132 0 K.opResult) [0;0;0;2; 0;0;0;1; 0;0;0;1; 0;1;107; 0;1;116; 0;1;99; 0;33; 0;13; 0;9; 0;0;0;0] = Ok (p, []))
   /\ out (parse_frame 4 132 0 K.opResult) [0;0;0;2; 0;0;0;1; 0;0;0;1; 0;1;107] = Err EShort
-  /\ out (parse_frame 4 132 0 K.opEvent) ([0;13] ++ s2b "STATUS_CHANGE" ++ [0;2;85;80;16;1;2]) = Crash CInetSlice
+  /\ out (parse_frame 4 132 0 K.opEvent) ([0;13] ++ s2b "STATUS_CHANGE" ++ [0;2;85;80;16;1;2]) = Err EShort
+  /\ out (parse_frame 4 132 0 K.opResult) [0;0;0;4; 0;1;120; 0;0;0;0; 0;0;0;0; 255;255;255;251] = Err ENegPk
   /\ tinfo_ok (TColl K.TypeMap [] (Some (TNative K.TypeVarchar [])) (TTuple [] [TNative K.TypeInt []; TUDT [] [107] [117] [([102], TNative K.TypeBlob [])]]))
-  /\ Forall no_tuple [{| c_ks := []; c_table := []; c_name := [99]; c_type := TNative K.TypeInt [] |}].
+  /\ unmarshal_new 4 (TColl K.TypeList [] None (TNative K.TypeInt [])) (Some [255;255;255;254]) = Err EUnmarshal
+  /\ (exists r, parse_type (s2b "A(") = Ok r)
+  (* the former allocation witness: 200 nested tuple types of arity 0xFFFF in 821 bytes now cost 67 bytes *)
+  /\ cost (parse_frame 4 132 0 K.opResult)
+          ([0;0;0;2; 0;0;0;0; 0;0;0;1; 0;1;107; 0;1;116; 0;1;99] ++ concat (repeat [0; 49; 255; 255] 200)) = 67.
 Proof.
   split; [apply wf_bytesb_spec; vm_compute; reflexivity|].
   split; [eexists; vm_compute; reflexivity|].
-  split; [vm_compute; reflexivity|]. split; [vm_compute; reflexivity|].
-  split; [vm_compute; intuition discriminate|]. repeat constructor.
+  split; [vm_compute; reflexivity|]. split; [vm_compute; reflexivity|]. split; [vm_compute; reflexivity|].
+  split; [vm_compute; intuition discriminate|]. split; [vm_compute; reflexivity|]. split; [eexists; vm_compute; reflexivity|].
+  vm_compute. reflexivity.
 Qed.
